@@ -1,8 +1,10 @@
 package vaxis
 
 import (
+	"bufio"
 	"fmt"
 	"strings"
+	"unicode/utf8"
 
 	"git.sr.ht/~rockorager/vaxis/ansi"
 	"git.sr.ht/~rockorager/vaxis/log"
@@ -25,7 +27,10 @@ type Cell struct {
 // window, you should either properly measure the graphemes based on your
 // terminals capabilities or set the widths to 0 to enable vaxis to measure them
 func ParseStyledString(s string) []Cell {
-	r := strings.NewReader(s)
+	// The parser only joins a grapheme cluster from what its reader has
+	// buffered, so buffer the whole string: otherwise a cluster straddling
+	// the reader's buffer size would come back in pieces
+	r := bufio.NewReaderSize(strings.NewReader(s), len(s)+utf8.UTFMax)
 	parser := ansi.NewParser(r)
 	defer parser.Close()
 	cells := make([]Cell, 0, len(s)/2) // best effort
